@@ -1,6 +1,11 @@
 package worlds
 
-import "verif/sim/engine"
+import (
+	"math"
+
+	"verif/sim/engine"
+	"verif/sim/refmodel"
+)
 
 var realStoreComponents = []string{"ddsketch/store (all five stores, real code)", "ddsketch/encoding", "ddsketch/pb/sketchpb", "google.golang.org/protobuf"}
 var stubStoreComponents = []string{"store owners (seeded actors with think times)", "byte links with latency, duplication and loss", "caller buffer pool"}
@@ -36,5 +41,116 @@ func init() {
 			"the reference is the exact content folded at the collapsing edge (max-N+1 / min+N-1), as the property states",
 			"a clean batch is evidence, not proof",
 		},
+	})
+}
+
+var realFleetComponents = []string{"ddsketch (DDSketch, DDSketchWithExactSummaryStatistics: real code)", "ddsketch/store (all five stores)", "ddsketch/mapping (all three mappings)", "ddsketch/encoding", "ddsketch/stat", "ddsketch/pb/sketchpb", "google.golang.org/protobuf"}
+var stubFleetComponents = []string{"agents, aggregators, readers and bad clients (seeded actors with think times)", "transport: links with latency, re-ordering, duplication, loss, concatenation", "caller buffer pool with canaries", "io.Writer of the streaming protobuf encoder", "simulated clock (orders events only; the library reads no clock)"}
+
+var plainKinds = []string{refmodel.Dense, refmodel.Sparse, refmodel.Paginated}
+var allKinds = []string{refmodel.Dense, refmodel.Sparse, refmodel.Paginated, refmodel.CLow, refmodel.CHigh}
+
+const exactAssumption = "weights are dyadic and inside the exactness budget (DESIGN 4.3), so every == comparison is on exactly representable sums"
+const sampleAssumption = "a clean batch is evidence, not proof: values, weights, quantiles and histories are sampled by the seeded generator"
+const distinctRule = "distinct = distinct schedule signature (sequence of event kind, mode, role and store kind of the nodes involved; arguments abstracted)"
+
+func badClient(g *fleetGen) {
+	r := g.r
+	var act func()
+	left := r.Range(2, 14)
+	act = func() {
+		if left <= 0 {
+			return
+		}
+		left--
+		n := g.nodes[r.Intn(len(g.nodes))]
+		maxv := n.m.MaxIndexableValue()
+		switch r.Pick(40, 25, 12, 10, 13) {
+		case 0:
+			v := []float64{math.NaN(), math.Inf(1), math.Inf(-1), math.MaxFloat64, -math.MaxFloat64, nudge(maxv, 1), -nudge(maxv, 1), maxv * 2, -maxv * 1.0001, 1, -3}[r.Intn(11)]
+			w := []float64{1, 1, 2, 0.5, -1, -0.25, -1e300, math.Inf(-1)}[r.Intn(8)]
+			g.emit(engine.Event{Ev: "badreq", N: n.id, S: "add", V: engine.F64(v), W: engine.F64(w), I: int64(r.Intn(2))})
+		case 1:
+			q := []float64{math.NaN(), -1e-300, math.Nextafter(0, -1), nudge(1, 1), 1.5, -1, math.Inf(1), math.Inf(-1), 2, 0.5, 0, 1}[r.Intn(12)]
+			g.emit(engine.Event{Ev: "badreq", N: n.id, S: "quantile", Q: []engine.F64{engine.F64(q)}})
+		case 2:
+			if len(g.nodes) > 1 {
+				m := g.nodes[r.Intn(len(g.nodes))]
+				g.emit(engine.Event{Ev: "badreq", N: n.id, M: m.id, S: "merge"})
+			}
+		case 3:
+			w := []float64{0, math.Copysign(0, -1), -1, -0.5, -1e-300, math.Inf(-1)}[r.Intn(6)]
+			g.emit(engine.Event{Ev: "badreq", N: n.id, S: "reweight", W: engine.F64(w)})
+		default:
+			which := r.Intn(9)
+			var v float64
+			if which < 6 {
+				v = []float64{0, 1, -0.1, 1.5, nudge(1, -1), math.SmallestNonzeroFloat64, 0.5, 1e-6, 0.99, math.Inf(1), -math.MaxFloat64, 2}[r.Intn(12)]
+			} else {
+				v = []float64{1, nudge(1, 1), 0.5, 0, -2, 1.02, 2, 1e300, nudge(1, -1)}[r.Intn(9)]
+			}
+			g.emit(engine.Event{Ev: "badreq", S: "ctor", V: engine.F64(v), W: engine.F64(float64(r.Range(-50, 50))), I: int64(which)})
+		}
+		g.q.After(int64(r.Range(1, 1500)), act)
+	}
+	g.q.After(int64(r.Range(0, 800)), act)
+}
+
+func init() {
+	engine.Register(&engine.Prop{
+		ID: "C01", Level: "exploration", World: "fleet",
+		QuickRuns: 20000, ThoroughRuns: 1500000,
+		Generate: GenFleet(&fleetProfile{prop: "C01", stores: plainKinds, roles: []string{"sketch", "sketch", "sketch", "exact"}, minNodes: 1, maxNodes: 2,
+			weights: []string{"unit"}, valueSigns: []string{"pos", "pos", "neg", "mixed", "mixed", "zeros", "zeroneg"},
+			ops: map[string]int{"add": 40, "burst": 10, "copy": 3, "clear": 3, "query": 25}, queryEvery: 25, maxOps: 200}),
+		Execute:    ExecFleet,
+		NonTrivial: nonTrivialFleet(2, "query"),
+		Rule:       "seeded single-sketch simulations: values arrive one at a time with queries interleaved at every density; " + distinctRule + "; non-trivial = at least 2 mutations and a query",
+		Real:       realFleetComponents, Stub: stubFleetComponents,
+		Assumptions: []string{"the oracle uses only the configured alpha, the absorbed values and exact rank arithmetic; margin 1e-11 relative (DESIGN 4.4)", sampleAssumption},
+	})
+	engine.Register(&engine.Prop{
+		ID: "C11", Level: "exploration", World: "fleet",
+		QuickRuns: 20000, ThoroughRuns: 1500000,
+		Generate: GenFleet(&fleetProfile{prop: "C11", stores: plainKinds, roles: []string{"sketch", "sketch", "exact"}, minNodes: 1, maxNodes: 3, shareMap: true,
+			weights: []string{"tiny", "tiny", "wide", "frac"}, valueSigns: []string{"pos", "pos", "neg", "mixed", "mixed", "zeros"},
+			ops: map[string]int{"add": 4, "addw": 40, "reweight": 8, "merge": 6, "copy": 2, "clear": 2, "query": 30}, queryEvery: 30, maxOps: 120}),
+		Execute:    ExecFleet,
+		NonTrivial: nonTrivialFleet(2, "query"),
+		Rule:       "seeded simulations of weighted sketches (dyadic weights, total weight from 2^-10, reached by weighted adds, merges and re-weighting); " + distinctRule + "; non-trivial = at least 2 mutations and a query",
+		Real:       realFleetComponents, Stub: stubFleetComponents,
+		Assumptions: []string{"ranks q*(W-1) and cumulative weights are evaluated in exact rational arithmetic; window slack 1e-9*(W+1)", exactAssumption, sampleAssumption},
+	})
+	engine.Register(&engine.Prop{
+		ID: "C12", Level: "exploration", World: "fleet",
+		QuickRuns: 12000, ThoroughRuns: 1000000,
+		Generate: GenFleet(&fleetProfile{prop: "C12", stores: allKinds, roles: []string{"sketch"}, minNodes: 1, maxNodes: 4, shareMap: true,
+			weights: []string{"unit", "int"}, valueSigns: []string{"pos", "neg", "mixed", "zeros", "zeroneg"},
+			ops:   map[string]int{"add": 30, "addw": 15, "burst": 5, "merge": 10, "copy": 3, "clear": 4, "reweight": 2, "send": 8, "query": 10},
+			forms: []string{"bin", "binomit", "pb", "pbstream"}, modes: []string{"merge", "fresh", "reuse"}, queryEvery: 10, maxOps: 120}),
+		Execute:    ExecFleet,
+		NonTrivial: nonTrivialFleet(3),
+		Rule:       "seeded pipeline simulations with the coherence invariants evaluated after every event on the node it touched; " + distinctRule + "; non-trivial = at least 3 mutations",
+		Real:       realFleetComponents, Stub: stubFleetComponents,
+		Assumptions: []string{"integer weights with total weight >= 1 (total weight below one is C11's case)", exactAssumption, sampleAssumption},
+	})
+	engine.Register(&engine.Prop{
+		ID: "C13", Level: "exploration", World: "fleet",
+		QuickRuns: 12000, ThoroughRuns: 1000000,
+		Generate: GenFleet(&fleetProfile{prop: "C13", stores: allKinds, roles: []string{"sketch", "exact"}, minNodes: 1, maxNodes: 3,
+			weights: []string{"unit", "int", "frac"}, valueSigns: []string{"pos", "neg", "mixed", "zeros"},
+			ops: map[string]int{"add": 30, "addw": 15, "copy": 2, "clear": 6, "reweight": 2}, queryEvery: 0, maxOps: 60, extra: badClient}),
+		Execute: ExecFleet,
+		NonTrivial: func(p *engine.Plan) bool {
+			for _, e := range p.Events {
+				if e.Ev == "badreq" {
+					return true
+				}
+			}
+			return false
+		},
+		Rule: "seeded simulations with a bad client issuing invalid requests at arbitrary moments of the history; " + distinctRule + "; non-trivial = at least one invalid request",
+		Real: realFleetComponents, Stub: stubFleetComponents,
+		Assumptions: []string{"NaN weights, factors and constructor parameters, and a weight of exactly 0 with an invalid value, are outside the documented contract and not generated", sampleAssumption},
 	})
 }
